@@ -1295,3 +1295,107 @@ pub fn c10_special(rec: &mut Rec) {
         }
     }
 }
+
+// ---------------------------------------------------------------------------------------------
+// Points on and near the Boolean hypercube (multilinear / multivariate trait schemes)
+// ---------------------------------------------------------------------------------------------
+
+/// Every point with coordinates in {0, 1, rho} (3^nv points, nv <= 4) for a dense polynomial of a multilinear /
+/// multivariate trait scheme.  `prop == "C01"`: the honest opening at the point is accepted for the true value.
+/// `prop == "C02"`: the same honest proof does not prove the value the polynomial takes at a REARRANGED point
+/// (coordinates reversed, reversed inside each half, halves exchanged, 0 and 1 exchanged) when that value differs.
+pub fn hypercube<S: crate::sch::Sch<Pt = Vec<<S as crate::sch::Sch>::F>>>(rec: &mut Rec, prop: &str, nvs: &[usize]) {
+    use crate::sch::*;
+    use crate::tr::*;
+    for nv in nvs.iter().copied() {
+        let cfg = if S::FAM == Fam::Mv { KeyCfg::mv(nv, 2, 2) } else { KeyCfg::ml(nv) };
+        let mut keys: Option<Keys<S>> = None;
+        let total = 3usize.pow(nv as u32);
+        // one enumerated point per block of 9 hypercube points
+        for block in 0..(total + 8) / 9 {
+            let id = format!("{}/{}/hypercube/nv={}/block={}", S::NAME, prop, nv, block);
+            if !rec.take(&id) {
+                continue;
+            }
+            if keys.is_none() {
+                keys = build_keys::<S>(&cfg, rec.seed).ok();
+            }
+            let keys = match &keys {
+                Some(k) => k,
+                None => return,
+            };
+            rec.dim("scheme", S::NAME);
+            let shapes = S::shapes(&cfg, rec.seed);
+            let dense = match shapes.iter().rev().find(|(m, _)| m.starts_with("dense")) {
+                Some(x) => x.1.clone(),
+                None => shapes.last().unwrap().1.clone(),
+            };
+            let c = match commit_set::<S>(keys, vec![lp::<S>("p", dense.clone(), None, None)], rec.seed, 0) {
+                Ok(c) => c,
+                Err(_) => continue,
+            };
+            let rho_v = rho_stream::<S::F>(rec.seed, 81, nv);
+            for k in block * 9..((block + 1) * 9).min(total) {
+                let mut digits = Vec::new();
+                let mut x = k;
+                for _ in 0..nv {
+                    digits.push(x % 3);
+                    x /= 3;
+                }
+                let z: Vec<S::F> = digits.iter().enumerate().map(|(i, d)| match d { 0 => S::F::zero(), 1 => S::F::one(), _ => rho_v[i] }).collect();
+                let name: String = digits.iter().map(|d| match d { 0 => '0', 1 => '1', _ => 'r' }).collect();
+                let s1 = match open_single::<S>(keys, &c, &[0], &z, 0, rec.seed, 0) {
+                    Ok(s) => s,
+                    Err(o) => {
+                        if prop == "C01" {
+                            rec.count_points(1);
+                            rec.violation(&format!("C01/{}/open/hypercube", S::NAME), &id, format!("open failed at the point {}: {}", name, o.short()));
+                        }
+                        continue;
+                    }
+                };
+                rec.op(2);
+                let comms: Vec<&LCm<S>> = c.comms.iter().collect();
+                if prop == "C01" {
+                    let d = check_single::<S>(keys, &comms, &z, &s1.values, &s1.proof, 0, rec.seed, 0);
+                    rec.count_points(1);
+                    rec.class(d.class());
+                    rec.obs(&format!("{}|hypercube|{}|{}", S::NAME, nv, d.class()));
+                    if !d.accepted() {
+                        rec.violation(&format!("C01/{}/check/hypercube", S::NAME), &id, format!("honest opening at the point {} (0/1/generic coordinates) not accepted: {}", name, d.short()));
+                    }
+                } else {
+                    let h = nv / 2;
+                    let mut variants: Vec<(&str, Vec<S::F>)> = Vec::new();
+                    variants.push(("reversed", z.iter().rev().cloned().collect()));
+                    if nv >= 2 {
+                        let mut v: Vec<S::F> = z[..h].iter().rev().cloned().collect();
+                        v.extend(z[h..].iter().rev().cloned());
+                        variants.push(("reversed-inside-halves", v));
+                        let mut v: Vec<S::F> = z[h..].to_vec();
+                        v.extend(z[..h].iter().cloned());
+                        if v.len() == nv {
+                            variants.push(("halves-exchanged", v));
+                        }
+                    }
+                    variants.push(("bits-flipped", z.iter().map(|x| if x.is_zero() { S::F::one() } else if x.is_one() { S::F::zero() } else { *x }).collect()));
+                    for (vn, zz) in variants {
+                        let other = dense.evaluate(&zz);
+                        rec.count_points(1);
+                        if other == s1.values[0] {
+                            rec.class("still-true");
+                            continue;
+                        }
+                        let d = check_single::<S>(keys, &comms, &z, &[other], &s1.proof, 0, rec.seed, 0);
+                        rec.class(&format!("false-{}", d.class()));
+                        rec.obs(&format!("{}|hypercube|{}|{}|{}", S::NAME, nv, vn, d.class()));
+                        if d.accepted() {
+                            rec.violation(&format!("C02/{}/check/value-of-rearranged-point", S::NAME), &id, format!("the honest proof at the point {} proves the value the polynomial takes at the {} point", name, vn));
+                        }
+                    }
+                }
+            }
+            rec.sample(&format!("{}-hypercube", S::NAME), id.clone());
+        }
+    }
+}
